@@ -390,4 +390,61 @@ theorem evolveAll_t (t : Rat) : ∀ l : List AnyL, (∀ a ∈ l, a.t ≤ t) →
 theorem AnyL.reset_t (a : AnyL) (b : Bool) : (a.step (.reset b)).t = 0 := by
   cases a <;> rfl
 
+/-! ## equal / repeated target times with layers out of step (round 6) -/
+
+/-- a time the layer does not refuse: any time for a finite layer, a time not before its own for an infinite layer -/
+def AnyL.accepts (t : Rat) : AnyL → Prop
+  | .fin _ => True
+  | .inf L => L.t ≤ t
+
+theorem AnyL.accepts_of_le (a : AnyL) (t : Rat) (h : a.t ≤ t) : a.accepts t := by
+  cases a with
+  | fin L => trivial
+  | inf L => exact h
+
+theorem AnyL.evolve?_accepts (a : AnyL) (t : Rat) (h : a.accepts t) :
+    a.evolve? t = some (a.step (.evolve t)) ∧ (a.step (.evolve t)).t = t := by
+  cases a with
+  | fin L => exact ⟨rfl, rfl⟩
+  | inf L =>
+    have : ¬ t < L.t := not_lt.2 h
+    constructor
+    · simp [AnyL.evolve?, AnyL.step, InfL.step, InfL.evolve, this]
+    · simp [AnyL.step, InfL.step, InfL.evolve, this, AnyL.t]
+      rfl
+
+theorem evolveAll_accepts (t : Rat) : ∀ l : List AnyL, (∀ a ∈ l, a.accepts t) →
+    evolveAll t l = (l.map (·.step (.evolve t)), true)
+  | [], _ => rfl
+  | a :: r, h => by
+    have h1 := (a.evolve?_accepts t (h a (List.mem_cons_self ..))).1
+    have ih := evolveAll_accepts t r (fun b hb => h b (List.mem_cons_of_mem _ hb))
+    unfold evolveAll
+    rw [h1]
+    simp [ih]
+
+theorem modifyAt_getElem? {α : Type} (f : α → α) : ∀ (j : Nat) (l : List α), (modifyAt f j l)[j]? = l[j]?.map f
+  | _, [] => by simp [modifyAt]
+  | 0, a :: r => by simp [modifyAt]
+  | j + 1, a :: r => by simp [modifyAt, modifyAt_getElem? f j r]
+
+theorem mem_modifyAt {α : Type} (f : α → α) : ∀ (j : Nat) (l : List α) (b : α), b ∈ modifyAt f j l → b ∈ l ∨ ∃ a ∈ l, b = f a
+  | _, [], b, h => by simp [modifyAt] at h
+  | 0, a :: r, b, h => by
+    simp only [modifyAt, List.mem_cons] at h
+    rcases h with rfl | h
+    · exact Or.inr ⟨a, List.mem_cons_self .., rfl⟩
+    · exact Or.inl (List.mem_cons_of_mem _ h)
+  | j + 1, a :: r, b, h => by
+    simp only [modifyAt, List.mem_cons] at h
+    rcases h with rfl | h
+    · exact Or.inl (List.mem_cons_self ..)
+    · rcases mem_modifyAt f j r b h with h | ⟨c, hc, rfl⟩
+      · exact Or.inl (List.mem_cons_of_mem _ h)
+      · exact Or.inr ⟨c, List.mem_cons_of_mem _ hc, rfl⟩
+
+theorem AnyL.new_t (s : Spec) : (AnyL.new s).t = 0 := by
+  unfold AnyL.new
+  split <;> rfl
+
 end HcipyVerif.Layer
